@@ -33,6 +33,16 @@ CHECKS = {
          "For each sampled history the target query is re-executed once per mutating FS call with that call failing; the query must report an error and leave no effect, later queries must behave per the model, and close+reopen must show every later successful mutation. Exhaustive over fault positions within the target (quick: even sample of 6), histories sampled.",
          "One failure per execution; failing call has no effect on the disk; reads never fail.", "6/C32"),
 
+ "C05": ("dbsim", "exploration", "deterministic simulation: seeded histories interleaved with restart / variant-switch / maintenance events, extended dump compared before and after each event while a reference model keeps running",
+         "Every maintenance event (clean restart, reopening with another file-backed variant, optimize_storage, shrink_to_fit on SimFs; backup+open, copy, rename+reopen on real scratch files) must leave the extended dump (all read queries plus ordered BFS/DFS traversals from and to every node, ids included) exactly as it was immediately before.",
+         "Fault-free: restarts are clean. backup/copy/rename go through std::fs and therefore run on real scratch files.", "6/C05"),
+ "C06": ("dbsim", "exploration", "deterministic simulation: one seeded history executed in lock-step on all six variants over SimFs with I/O noise and forced contended reads",
+         "After every step success/failure, error text and returned ids are compared across DbMemory, DbFile, Db and the three DbAny kinds; every n-th step also the extended dumps.",
+         "Fault-free configuration; equality is judged on observable results, not internal sizes.", "6/C06"),
+ "C07": ("dbsim", "exploration", "deterministic simulation: stored-byte corruption injected into simulated disk images, opened and read by the real code in supervised worker processes with an allocation cap",
+         "Structure-biased mutations (bit flips, truncation, overwritten index/size/length fields, forged or garbage logs, random files) of clean and crash-snapshot images; every trial must end in Ok or Err: a panic is caught with its site, an abort or over-cap allocation kills the worker and is attributed to the trial.",
+         "Hangs are observations, not violations (the statement does not cover them). Known findings (record-table sizing, a test-pinned panic) are listed in known_findings.jsonl and cut/recognised by call site.", "6/C07"),
+
  "C04": ("dbsim", "exploration", "deterministic simulation: seeded storage histories with clean restarts, I/O noise and forced contended reads, checked operation by operation against a byte-level reference model",
          "Seeded search over storage-operation histories on all three back-ends; after every operation every live value is read back and compared with the model, removed values must be unreadable, and after defragmentation / restart the file must hold no unused space.",
          "Valid requests only; fault-free configuration (the crash configuration is C01). The model is 60 lines and mirrors the documented semantics of insert-at/move/resize.", "6/C04"),
